@@ -86,6 +86,18 @@ CHECKS["C17"] = dict(
          "actions the executed allocation.",
     design="5 C17", technique="TLA+ spec model-checked with TLC; behaviours replayed into the real TradingEnv", note=ENV_NOTE)
 
+CHECKS["C14"] = dict(
+    text="TLC explores every interleaving of quotes, discontinuations and clock moves over assets, futures and a futures chain "
+         "(Exchange.tla) checking LastQuoteWins, DeadShowsNoPrice, ChainAlias, ExecSide and the action properties Isolation, "
+         "DeadStaysDead, HistoryAppendOnly, LeadMonotone; every model state is replayed into a real Exchange and the books seen "
+         "through every key (contract, symbol string, chain) are compared; in the other direction random executions recorded "
+         "from the real Exchange are validated line by line by TLC against ExchangeTrace.tla (every line consumed, verdict names "
+         "the failing clause).",
+    design="5 C14", technique="TLA+ spec model-checked with TLC; spec behaviours replayed into the real Exchange and recorded "
+                              "implementation traces validated by TLC (ExchangeTrace.tla)",
+    note="Trusted base: TLC 1.8, CommunityModules Json, the harness; integer price grid; forward-moving clock over the "
+         "chain's last-trading instants; bounded depth.")
+
 PENDING = "check not built yet in this round (the TLA+ model for it is planned in DESIGN.md section 5); listed here until its check is registered"
 
 
